@@ -166,6 +166,7 @@ def explore(chk):
         elif job[0] == "parse":
             _, s, i = job
             I = impl_parse(s)
+            chk.remember(("Size.from_string", s), (lambda s=s: impl_parse(s)), I, every=97)
             inlang = bool(LANG.match(s))
             S_ok = inlang
             nontriv = inlang or any(LANG.match(s[:k] + s[k + 1:]) for k in range(len(s)))
@@ -196,6 +197,7 @@ def explore(chk):
         elif job[0] == "print":
             _, z, i = job
             I = str(z)
+            chk.remember(("str(Size)", repr(z)), (lambda z=z: str(z)), I, every=5)
             chk.case(key=("print", geo.enc_size(z)), nontrivial=True,
                      sample={"op": "str", "size": repr(z), "impl": I} if chk.count_get("print_samples") < 2 and not chk.count("print_samples") else None)
             chk.count("print")
@@ -264,6 +266,7 @@ def explore(chk):
         chk.count("purity")
         if geo.obs_layout(l) != before:
             chk.property_failure({"op": "purity", "layout": str(before), "after": str(geo.obs_layout(l))}, "relativizing or fitting modified the receiver")
+    chk.recheck("geometry parsing / printing")
 
 
 def replay(path):
